@@ -23,6 +23,7 @@ DECIDED = [
     "ORDER-1 at every write-mode open() of the package the content is computed before the file is opened",
     "ORDER-6 in ODMLWriter.write_file nothing that can raise (not even warnings.warn) runs after a file was written",
     "RANK-0 ValidationError.is_error compares the rank with the error label",
+    "REG-1 / RANK-1 (shared with C08) every documented error rule is registered for its object kinds and constructs its issues with rank error",
     "ACC-1 the duplicate-id error rule threads one id map through the whole traversal (shared with C08)",
 ]
 NOT_DECIDED = ["I/O faults of write() itself (disk full, permission)", "which documents the validation rules flag (C08)"]
@@ -170,8 +171,11 @@ def run(prog, rep):
 
     # ----------------------------------------------------------------- ACC-1 (the duplicate-id error rule finds every duplicate)
     from .. import analysis
-    from .c08 import acc1_rule
+    from .c08 import acc1_rule, tab2_rule, tab3_rule
     acc1_rule(prog, rep, analysis.get(prog).s)
+    # the error rules are what blocks a save: they must be registered for the kinds they are documented for, with rank error
+    tab2_rule(prog, rep, analysis.get(prog).k, "REG-1", only_rank="error")
+    tab3_rule(prog, rep, "RANK-1", only_rank="error")
 
     # ---------------------------------------------------------------- RANK-0
     rep.rule("RANK-0", "ValidationError.is_error is `self.rank == LABEL_ERROR`")
